@@ -114,6 +114,16 @@ MAIN_TABLE = """table tbl STRING { "k0": "v0", }
 """
 MAIN_DECLS = MAIN_BACKENDS + MAIN_TABLE
 LAYOUTS = ["flat", "include", "ipath"]
+TAGS = ["prod", "dev", "stg"]
+
+
+def tag_runs(tags, cli):
+    """docs/testing.md: an untagged test always runs; a tagged one when its tags match the -t option"""
+    if not tags:
+        return True
+    if not cli:
+        return all(inv for _, inv in tags)
+    return any((not inv) if k == c else inv for c in cli for k, inv in tags)
 TEST_DECLS = """table fx1 STRING { "mk": "f1", }
 table fx2 STRING { "mk": "f2", }
 """
@@ -142,6 +152,7 @@ class Suite:
         # a directory given with -I.  nfiles: the tests are spread over that many *.test.vcl files of one run.
         self.layout = "flat"
         self.nfiles = 1
+        self.cli_tags = []      # the -t option of the run (indices into TAGS); tests carry "tags": [(index, inverse)]
 
     def split(self, order):
         if self.nfiles == 1 or len(order) < 2:
@@ -167,7 +178,7 @@ class Suite:
             if d:
                 inc = ["inc"]
         return {"cov": bool(cov), "files": files, "main": "main.vcl", "include_paths": inc,
-                "filter": "*/" + names[0] if only_first_file else ""}
+                "filter": "*/" + names[0] if only_first_file else "", "tags": [TAGS[k] for k in self.cli_tags]}
 
     def items(self):
         """the items of the test file in their default order: ('t', test index) | ('g', group index)"""
@@ -284,6 +295,8 @@ class Suite:
     def test_lines(self, t, ind):
         p = "  " * ind
         out = [p + "// @scope: " + ", ".join(t["scopes"]), p + "// @suite: T%d" % t["name"]]
+        if t.get("tags"):
+            out.append(p + "// @tag: " + ", ".join(("!" if inv else "") + TAGS[k] for k, inv in t["tags"]))
         if t["skip"]:
             out.append(p + "// @skip")
         out.append(p + "sub test_%d {" % t["name"])
@@ -364,8 +377,9 @@ class Suite:
         return " ".join(out)
 
     def test_sexp(self, t):
-        return "(test %d (%s) %d (%s))" % (t["name"], " ".join(str(SCOPES.index(x)) for x in t["scopes"]), int(t["skip"]),
-                                           self.steps_sexp(t["steps"]))
+        tags = " (tags%s)" % "".join(" (%d %d)" % (k, int(inv)) for k, inv in t["tags"]) if t.get("tags") else ""
+        return "(test %d (%s) %d (%s)%s)" % (t["name"], " ".join(str(SCOPES.index(x)) for x in t["scopes"]), int(t["skip"]),
+                                             self.steps_sexp(t["steps"]), tags)
 
     def model_request(self, cov, order, only_first_file=False):
         subs = "".join(" (sub %d %s)" % (k, self.bsexp(b)) for k, b in self.subs)
@@ -381,7 +395,8 @@ class Suite:
                     items.append("(group %d (before%s) (after%s) %s)" % (g["name"], hooks(g["before"]), hooks(g["after"]),
                                                                          " ".join(self.test_sexp(self.tests[ti]) for ti in g["tests"])))
             items += ["(single (test 9001 (0) 0 ()))", "(single (test 9002 (0) 0 ()))"]
-        return "run %d (subs%s) (items %s)" % (int(cov), subs, " ".join(items))
+        cli = " (cli%s)" % "".join(" %d" % k for k in self.cli_tags) if self.cli_tags else ""
+        return "run %d%s (subs%s) (items %s)" % (int(cov), cli, subs, " ".join(items))
 
     @staticmethod
     def log_text(m):
@@ -508,7 +523,7 @@ def simulate(suite, order, only_first_file=False):
 
     def run_test(t, fl, rs, group):
         for sc in t["scopes"]:
-            if t["skip"]:
+            if t["skip"] or not tag_runs(t.get("tags"), suite.cli_tags):
                 cases.append((None, t["name"], sc, True, "pass", []))      # a skipped case carries no group
                 cnt["sk"] += 1
                 continue
@@ -856,5 +871,9 @@ class TestRunGen:
             self._c("test:" + ("skip" if skip else expect))
             self._c("test:%d-scopes" % nsc)
             s.tests.append({"name": t, "scopes": scopes, "skip": skip, "steps": self.steps(expect, s.subs), "expect": expect})
+            if r.random() < 0.3:
+                s.tests[-1]["tags"] = [(r.randrange(len(TAGS)), r.random() < 0.35) for _ in range(r.choice([1, 1, 2]))]
+                self._c("test:tagged")
+        s.cli_tags = r.choice([[], [], [0], [1], [0, 2]])
         s.stats = dict(self.stats)
         return s
